@@ -108,11 +108,19 @@ def validate(spec, norm_path, wd, tag, timeout=900):
 
 
 def sim_check(prop, tier, seed, scenarios, spec, rule_filter, required_counters, level_note, keep_sleep=False,
-              jobs=4, known_prefix=None):
+              jobs=4, known_prefix=None, mc=None):
     """scenarios: list of scenario dicts. rule_filter(rule)->bool selects the rules that are verdicts for this property
     (all rules are sound; the others are reported under the property that owns them when its own check runs)."""
     wd = vlib.workdir(prop)
     known = vlib.load_known()
+    # 1. exhaustive model checking of the abstract model (a failure here is a spec/tool error)
+    mc_runs = []
+    for (module, cfg) in (mc or {}).get(tier, []):
+        r = vlib.run_tlc(module, cfg, wd, workers=6, timeout=3000, capture_edges=False)
+        mc_runs.append({"module": module, "cfg": cfg, "distinct_states": r["stats"]["distinct"],
+                        "generated": r["stats"]["generated"], "wall_s": r["stats"]["wall_s"],
+                        "action_coverage": r["stats"]["coverage"], "cmd": r["stats"]["cmd"]})
+    # 2. executions of the real code
     t0 = time.time()
     runs = run_sim_batch(scenarios, wd, "s", jobs=jobs)
     sim_wall = time.time() - t0
@@ -177,8 +185,9 @@ def sim_check(prop, tier, seed, scenarios, spec, rule_filter, required_counters,
             samples.append({"scenario": scenarios[k], "events": ranges[k][1] - ranges[k][0] + 1})
     nontrivial = sum(1 for k, run in enumerate(runs) if run and any(e["ev"] in ("Drop", "Dup", "Delay") for e in run))
     coverage = {
-        "states": res["states"],
-        "transitions": res["lines"],
+        "states": res["states"] + sum(m["distinct_states"] for m in mc_runs),
+        "transitions": res["lines"] + sum(m["generated"] for m in mc_runs),
+        "model_checking_runs": mc_runs,
         "traces_validated_against_impl": len(scenarios),
         "evaluations": len(scenarios),
         "distinct_nontrivial": nontrivial,
